@@ -92,6 +92,7 @@ let loc_of s : location option =
   if s = "-" then None
   else if s = "n" then Some (LCpu None)
   else if s = "b" then Some LBad
+  else if s = "on" then Some LObjNull
   else if String.length s > 2 && String.sub s 0 2 = "c:" then Some (LCpu (Some (set_of_hex (String.sub s 2 (String.length s - 2)))))
   else if String.length s > 2 && String.sub s 0 2 = "o:" then Some (LObj (find_obj (String.sub s 2 (String.length s - 2))))
   else raise Badcase
@@ -157,6 +158,7 @@ let handle (l : string) =
   | op :: args ->
     (try
       match op, args with
+      | "reg", ["@null"; f] -> do_op op true (ORegisterNull (n_of_dec f))
       | "reg", [name; f] -> do_op op true (ORegister (bytes_of_string name, n_of_dec f))
       | "getbyname", [name] -> do_op op true (OGetByName (bytes_of_string name))
       | "getname", [id] -> do_op op true (OGetName (n_of_dec id))
@@ -174,6 +176,7 @@ let handle (l : string) =
       | "retopo", [] -> let t = take_topo () in do_op "restrict" true (ORetopo t)
       | "dupsw", [] -> let _ = take_topo () in do_op "dup" true ODup
       | "xmlsw", [] -> let t = take_topo () in do_op "xml" true (OXml t)
+      | "xmltsw", [] -> let t = take_topo () in do_op "xmlt" true (OXml t)
       | _ -> Printf.printf "R %s rc=-1 err=BADCASE\n" op
     with Badcase | Failure _ -> Printf.printf "R %s rc=-1 err=BADCASE\n" op)
 
